@@ -9,6 +9,10 @@ use elements::secp256k1_zkp as zkp;
 use elements::{Address, AddressParams, PubkeyHash, ScriptHash, WPubkeyHash, WScriptHash};
 use std::str::FromStr;
 
+// model growth: opcode classification / names, asm and the other text forms, script-number boundaries
+#[path = "c16asm.rs"]
+mod asm;
+
 // ------------------------------------------------------------------ builder operations
 
 #[derive(Clone, Debug, PartialEq)]
@@ -955,4 +959,7 @@ pub fn run(rng: &mut R, out: &mut Out) {
         let (x, _) = pk.x_only_public_key();
         one_payload(out, &keys, "wp", 1, &x.serialize());
     }
+
+    // ---- opcodes, text forms, script-number boundaries (c16asm.rs); last, so the stream above is unchanged
+    asm::run(rng, out);
 }
